@@ -73,7 +73,14 @@ def gen_cases(ctx):
         for _ in range(rng.randrange(3, 9)):
             who = rng.randrange(k)
             pool = ops_of(classes[who], focus=(i % 2 == 1))
-            blocks.append([who, [pool[rng.randrange(len(pool))] for _ in range(rng.randrange(0, 9))]])
+            blk = [who, [pool[rng.randrange(len(pool))] for _ in range(rng.randrange(0, 9))]]
+            if rng.random() < 0.15:
+                # a nested block: at the end of this object's block another object's block runs
+                # (`with a: ...; with b: ...`), then this one is left
+                who2 = rng.choice([x for x in range(k) if x != who])
+                pool2 = ops_of(classes[who2], focus=(i % 2 == 1))
+                blk.append([who2, [pool2[rng.randrange(len(pool2))] for _ in range(rng.randrange(0, 5))]])
+            blocks.append(blk)
         # a non-plus chip whose FEATURE register is 0 when a driver object is constructed
         # cannot be told from a plus variant (outside A19) -> FakeBLE mixes run on plus chips
         yield {"classes": classes, "blocks": blocks, "seed": rng.getrandbits(30),
@@ -145,7 +152,9 @@ def run_case(ctx, case):
             est.append(mask(radio.snapshot()["cfg"]))
         last_owner = len(objs) - 1
         compared = 0
-        for bi, (who, ops) in enumerate(case["blocks"]):
+        for bi, blk in enumerate(case["blocks"]):
+            who, ops = blk[0], blk[1]
+            nested = blk[2] if len(blk) > 2 else None
             o, cls = objs[who], case["classes"][who]
             before = mask(radio.snapshot()["cfg"])
             del radio.san[:]
@@ -169,6 +178,14 @@ def run_case(ctx, case):
             for op in ops:
                 apply(o, cls, op, rig)
             est[who] = mask(radio.snapshot()["cfg"])
+            if nested is not None:
+                o2, cls2 = objs[nested[0]], case["classes"][nested[0]]
+                o2.__enter__()
+                for op in nested[1]:
+                    apply(o2, cls2, op, rig)
+                est[nested[0]] = mask(radio.snapshot()["cfg"])
+                o2.__exit__(None, None, None)
+                ctx.count("nested_blocks")
             o.__exit__(None, None, None)
             ctx.clause("exit_state")
             if radio.r[0] & 2 or radio.ce:
